@@ -62,7 +62,7 @@ HELPERS = {
                                'Locus.count_alleles', 'Locus.positions'])],
     'C07': [('mchap.io.vcf.records', ['format_info_field', 'format_sample_field', 'format_record']),
             ('mchap.io.vcf.util', ['vcfstr']),
-            (BC, ['program.sumarise_vcf_record', 'program._locus_data', 'LocusAssemblyData._sampledata_as_list',
+            (BC, ['program.sumarise_vcf_record', 'program.require_AFP', 'program._locus_data', 'LocusAssemblyData._sampledata_as_list',
                   'LocusAssemblyData.format_vcf_record']),
             (J, ['natural_log_to_log10', 'genotype_alleles_as_index']),
             (CM + 'utils', ['posterior_as_array']),
@@ -74,6 +74,11 @@ HELPERS = {
                   'program._writer', 'program._run_stdout_multi_core', 'program.run_stdout']),
             ],
     'C09': [ARRAYMAP, ASSEMBLE_LLK,
+            # the likelihood a sampler carries and records (R09.4)
+            (AM + 'mutation', ['base_step', 'compound_step']),
+            (AM + 'structural', ['interval_step', 'compound_step']),
+            (CM + 'mcmc', ['mh_options', 'gibbs_options', 'compound_step', 'mcmc_sampler']),
+            (PM + 'mcmc', ['metropolis_hastings_probabilities', 'gibbs_probabilities', 'allele_step', 'pair_allele_swap_step']),
             (CM + 'likelihood', ['log_likelihood_alleles_cached']),
             (PM + 'likelihood', ['log_likelihood_alleles_cached']),
             (AM + 'mcmc', ['_denovo_assembler']),
